@@ -40,3 +40,92 @@ Theorem C01_spec_example :
   run_main 50 ex_prog [bits_of_Z 8 255%Z; bits_of_Z 8 5%Z] = RunPanic ROverflow (mkMeta 0 41 0 46).
 Proof. split; vm_compute; reflexivity. Qed.
 Print Assumptions C01_spec_example.
+
+(* ------------------------------------------------------------------------------------
+   Program level.  Compile/Lower.v is the model of src/compile.rs (tied to the real compiler
+   gate for gate on every run); Compile/TSem.v is the SAME lowering run over Booleans (no
+   gate store, no cache, no rewriting, no pruning): the bit-level semantics of a program.
+   For every program, every fuel and every input on which the bit-level semantics is defined:
+   the model emits a circuit that validates, has the parameters' party sizes and 161 + |value|
+   outputs, and whose output decodes (EvalPanic::parse = parse_panic) to exactly the panic /
+   the value bits of the bit-level semantics.  [MAX_GATES] is the size limit of
+   Circuit::validate. *)
+From GV Require Import Builder.Build Panic.PanicRec Panic.PanicSem Compile.Lower Compile.TSem Compile.LowerSound.
+
+Theorem C01_circuit_computes_bit_semantics : forall fuel dedup P s1 outs,
+  lower_main_with fuel dedup P = Ok (PreOk s1 outs) ->
+  counter (cb s1) + (b_shift (cb s1) - 2) <= MAX_GATES ->
+  exists fd igs bindings,
+    find_fn P (p_main P) = Some fd /\ param_wiring P (fn_params fd) = (igs, bindings) /\
+    forall ins inp o vouts,
+      load_inputs igs ins = Some inp ->
+      tsem_program fuel P (param_args bindings inp) = Ok (o, vouts) ->
+      exists c out,
+        lower_program_with fuel dedup P = Ok (LCircuit c) /\
+        ssa_validate c = None /\ input_gates c = igs /\
+        length (output_gates c) = (161 + length vouts)%nat /\
+        ssa_eval c ins = Some out /\
+        parse_panic out = parse_spec o vouts /\
+        (o = None -> skipn 161 out = vouts).
+Proof. exact lower_program_sound. Qed.
+Print Assumptions C01_circuit_computes_bit_semantics.
+
+(* all four configurations: SSA and register circuit, gate de-duplication on and off *)
+Theorem C01_all_configurations : forall fuel P s1 outs1 s2 outs2,
+  lower_main_with fuel true P = Ok (PreOk s1 outs1) -> lower_main_with fuel false P = Ok (PreOk s2 outs2) ->
+  counter (cb s1) + (b_shift (cb s1) - 2) <= MAX_GATES ->
+  counter (cb s2) + (b_shift (cb s2) - 2) <= MAX_GATES ->
+  exists fd igs bindings,
+    find_fn P (p_main P) = Some fd /\ param_wiring P (fn_params fd) = (igs, bindings) /\
+    forall ins inp o vouts,
+      load_inputs igs ins = Some inp ->
+      tsem_program fuel P (param_args bindings inp) = Ok (o, vouts) ->
+      exists c1 c2 r1 r2 out1 out2,
+        lower_program_with fuel true P = Ok (LCircuit c1) /\ lower_program_with fuel false P = Ok (LCircuit c2) /\
+        convert c1 = Ok r1 /\ convert c2 = Ok r2 /\
+        ssa_eval c1 ins = Some out1 /\ reg_eval r1 ins = Some out1 /\
+        ssa_eval c2 ins = Some out2 /\ reg_eval r2 ins = Some out2 /\
+        parse_panic out1 = parse_spec o vouts /\ parse_panic out2 = parse_spec o vouts /\
+        (o = None -> skipn 161 out1 = vouts /\ skipn 161 out2 = vouts).
+Proof.
+  intros fuel P s1 outs1 s2 outs2 H1 H2 M1 M2.
+  destruct (lower_program_sound fuel true P s1 outs1 H1 M1) as (fd & igs & bindings & Efd & Epw & S1).
+  destruct (lower_program_sound fuel false P s2 outs2 H2 M2) as (fd' & igs' & bindings' & Efd' & Epw' & S2).
+  rewrite Efd in Efd'. injection Efd' as <-. rewrite Epw in Epw'. injection Epw' as <- <-.
+  exists fd, igs, bindings. split; [assumption|]. split; [assumption|].
+  intros ins inp o vouts Hl Ht.
+  destruct (S1 ins inp o vouts Hl Ht) as (c1 & out1 & L1 & V1 & _ & _ & E1 & P1 & W1).
+  destruct (S2 ins inp o vouts Hl Ht) as (c2 & out2 & L2 & V2 & _ & _ & E2 & P2 & W2).
+  destruct (C01_register_form_equivalent c1 V1) as (r1 & C1 & R1).
+  destruct (C01_register_form_equivalent c2 V2) as (r2 & C2 & R2).
+  exists c1, c2, r1, r2, out1, out2. rewrite R1, R2. repeat split; auto.
+Qed.
+Print Assumptions C01_all_configurations.
+
+(* non-vacuity: for the example program above the model compiles (both settings) and the
+   bit-level semantics is defined and agrees with the specification interpreter *)
+Definition pre_ok (r : res lowered_pre) : bool :=
+  match r with
+  | Ok (PreOk s outs) => counter (cb s) + (b_shift (cb s) - 2) <=? MAX_GATES
+  | _ => false
+  end.
+
+Lemma pre_ok_spec r : pre_ok r = true ->
+  exists s outs, r = Ok (PreOk s outs) /\ counter (cb s) + (b_shift (cb s) - 2) <= MAX_GATES.
+Proof.
+  destruct r as [[s outs| |]| |]; cbn [pre_ok]; try discriminate. intro H. apply N.leb_le in H. eauto.
+Qed.
+
+Theorem C01_bit_semantics_example :
+  (exists s outs, lower_main_with 50 true ex_prog = Ok (PreOk s outs) /\ counter (cb s) + (b_shift (cb s) - 2) <= MAX_GATES) /\
+  (exists s outs, lower_main_with 50 false ex_prog = Ok (PreOk s outs) /\ counter (cb s) + (b_shift (cb s) - 2) <= MAX_GATES) /\
+  tsem_program 50 ex_prog [bits_of_Z 8 7%Z; bits_of_Z 8 92%Z] = Ok (None, bits_of_Z 8 89%Z) /\
+  (exists garbage, tsem_program 50 ex_prog [bits_of_Z 8 255%Z; bits_of_Z 8 5%Z] = Ok (Some (1, mkPLoc 0 41 0 46), garbage)).
+Proof.
+  split; [|split; [|split]].
+  - apply pre_ok_spec. vm_compute. reflexivity.
+  - apply pre_ok_spec. vm_compute. reflexivity.
+  - vm_compute. reflexivity.
+  - eexists. vm_compute. reflexivity.
+Qed.
+Print Assumptions C01_bit_semantics_example.
